@@ -2,6 +2,7 @@
 from vlib import *
 from genharness import *
 from gencheck import *
+import json
 
 NAMES = ['A', 'B', 'C', 'None', 'Down', 'Up', 'Ok', 'Banned', 'X1', 'Lo', 'Hi', 'Zed']
 
@@ -51,6 +52,28 @@ def run(tier):
             name = f"Gen{j}"
             t[rng.choice(['', 'pub', 'net', 'map'])]['enums'].append({'name': name, 'type': it, 'values': [(n, str(v)) for n, v in decl]})
             jobs.append(dict(op='enum', cls=name, calls=calls_for(rng, decl, it), decl=decl, how='generated'))
+        # enum-typed fields and arrays in a generated struct, with underlying-type overrides: read-then-write keeps every ordinal,
+        # and what deserialize hands out is an instance of the enum (declared member or Unrecognized), never a bare int
+        enames = [f"Gen{j}" for j in range(4)]
+        under = {e['name']: e['type'] for f_ in t.values() for e in f_['enums']}
+        wider = lambda it: INTS[min(INTS.index(it) + 1, 4)] if it != 'byte' else 'short'
+        holder = [F('a', enames[0]), F('b', enames[1] + ':' + wider(under[enames[1]])), F('c', enames[2] + ':' + rng.choice(['short', 'three', 'int'])),
+                  A('xs', enames[0], length='2'), L('n', 'char'), A('ys', enames[1] + ':' + wider(under[enames[1]]), length='n'),
+                  F('o', enames[3], optional='true'), A('zs', enames[3], optional='true')]
+        t['net']['structs'].append({'name': 'EnumHolder', 'body': holder})
+        decl_by = {j['cls']: j['decl'] for j in jobs}
+
+        def ev(name, it):
+            vals = [v for _, v in decl_by[name]]
+            z = rng.choice(vals + [rng.randrange(0, IMAX[it] + 1), IMAX[it], min(IMAX[it], 253), min(IMAX[it], 300)])
+            return {'e': name, 'v': z}
+        for _ in range(6):
+            wb, wc = wider(under[enames[1]]), holder[2]['attrs']['type'].split(':')[1]
+            v = {'o': 'EnumHolder', 'f': [['a', ev(enames[0], under[enames[0]])], ['b', ev(enames[1], wb)], ['c', ev(enames[2], wc)],
+                                          ['xs', {'l': [ev(enames[0], under[enames[0]]) for _ in range(2)]}],
+                                          ['ys', {'l': [ev(enames[1], wb) for _ in range(rng.randrange(0, 4))]}],
+                                          ['o', ev(enames[3], under[enames[3]])], ['zs', {'l': [ev(enames[3], under[enames[3]]) for _ in range(rng.randrange(1, 4))]}]]}
+            jobs.append(dict(op='ser', cls='EnumHolder', value=v, san=False, then_deser=True, mutants=0, how='struct-fields'))
         # the two skeleton enums, which every tree has
         jobs.append(dict(op='enum', cls='PacketFamily', calls=calls_for(rng, [('Init', 255), ('Talk', 18), ('Welcome', 5)], 'byte'), decl=[('Init', 255), ('Talk', 18), ('Welcome', 5)], how='generated'))
         for j in range(3):
@@ -68,12 +91,33 @@ def run(tier):
     cases = []
     ncalls = 0
     hows = {}
+    gen_cases = {}
     for e in entries:
         r = e['result']
         if not r.get('accepted'):
             C.violation(f"enum tree {e['name']} rejected: {r.get('error')}", dict(unit='protocol_code_generator', input=dict(xml=tree_xml(e['tree']))))
             continue
         for job, out in zip(e['jobs'], r.get('results', [])):
+            if job['op'] == 'ser':
+                ok = impl_roundtrip_ok(job, out)
+                d = (out.get('deser') or [{}])[0]
+                if not ok and not C.violations:
+                    C.violation(f"enum-typed fields do not survive write-then-read: {job['value']} -> bytes {out.get('bytes')} -> {json.dumps(d.get('res'))[:400]}",
+                                dict(unit='generated enum fields', input=dict(xml=tree_xml(e['tree']), value=job['value'])))
+                elif ok:
+                    # every enum-typed slot must hold an enum instance of the declared class
+                    got = dict((k, v) for k, v in d['res'][1]['f'])
+                    for k, v in job['value']['f']:
+                        want = [x for x in (v['l'] if v and 'l' in v else [v])]
+                        have = [x for x in (got[k]['l'] if got[k] and 'l' in got[k] else [got[k]])]
+                        for w_, h_ in zip(want, have):
+                            if w_ and 'e' in w_ and not (h_ and h_.get('e') == w_['e']) and not C.violations:
+                                C.violation(f"deserialized enum field {k} holds {h_}, not an instance of {w_['e']}",
+                                            dict(unit='generated enum fields', input=dict(xml=tree_xml(e['tree']), value=job['value'])))
+                    gen_cases.setdefault(id(e), (e, []))[1].append(ser_case(job, {k: v for k, v in out.items() if k != 'deser'}))
+                    gen_cases[id(e)][1].append(deser_case('EnumHolder', d))
+                hows['struct-fields'] = hows.get('struct-fields', 0) + 1
+                continue
             if 'obs' not in out:
                 C.violation(f"constructing a protocol enum failed ({job['how']}): {out}", dict(unit='protocol_enum_meta', input=dict(decl=job['decl'], calls=job['calls'])))
                 continue
@@ -90,6 +134,16 @@ def run(tier):
                       f"{clist(c[1][0], lambda o: f'({cbool(o[0])}, {cz(o[1])}, {cs(o[2])}, {cz(o[3])})')}, {clist(c[1][1], lambda p: f'({cs(p[0])}, {cz(p[1])})')})")
     specs = [dict(label='M.enum_check', ty='list (string * Z) * list Z * list (bool * Z * string * Z) * list (string * Z)', cases=cases, term=term, chk='enum_check')]
     corr_streams(C, 'c14', specs, "From EO Require Import Model.Spec Model.EnumMeta.\nOpen Scope string_scope.\nOpen Scope list_scope.\nOpen Scope Z_scope.\n")
+    items = [(e['tree'], True, cs_) for e, cs_ in gen_cases.values()]
+    if items:
+        try:
+            fl = run_tree_cases('c14g', items)
+            for (tree, _, cs_), f in zip(items, fl):
+                for i in f[:1]:
+                    C.disagreement('enum-fields', dict(case=cs_[i][:300] if i >= 0 else 'accept/reject'))
+            C.stream('corr.enum-fields', sum(len(i[2]) for i in items), sum(len(i[2]) for i in items))
+        except CoqCaseError as ex:
+            C.broken.append(dict(kind='correspondence', stream='enum-fields', msg=str(ex)[-600:]))
     for b in [b for b in C.broken if b.get('kind') == 'correspondence' and b.get('case')][:1]:
         C.violation(f"protocol enum behaviour differs from the model on {b['case']}", dict(unit='protocol_enum_meta', input=b['case'], observed=b.get('impl')))
     return C.finish()
